@@ -116,15 +116,18 @@ class C12(flow.Spec):
                'connectNamedObjArgs preserves SH (abstract invariant threaded through the pass, ParserTotalConn2.v / ParserTotalPass2.v).  The ONLY step of '
                'ParseAML not covered by a chained no-panic theorem is "the first pass establishes SH"',
                'C12_parse_total_partial_first_pass_shape: the FIRST PASS from the initial state of any table over any pool with R, valid indexes, live '
-               'parentless ScopeBlock root, TM2 and no object carrying the new handle never panics and on success leaves an empty scope stack and LI '
-               '(root facts, TM2 for all Methods incl. the new ones, PEND, the structure of the Scope directives) - frame version of the first pass '
-               '(ParserTotalFirst2.v), judgement bn (ParserTotalBenign.v), invariant step (ParserTotalPass1.v).  '
-               'C12_parse_total_nopanic_if_names: END TO END - parseAML_body (all six passes, any fuel) from init_state of any table over any such pool '
-               '(+ []byte typing, slices inside, explicit quadratic memory bound) NEVER panics and re-establishes R / valid indexes / slices-inside, '
-               'PROVIDED two facts about names hold in the state the first pass produces (NAMEOK): the name field of every Scope directive of the new '
-               'table has no lead character (newObject keeps the name of a reused free slot), and the []byte of every name-path object is a good path '
-               '(four-byte paths start with a name character, \\ or ^; a property of parseNameString).  These two lemmas are the ONLY missing links of the '
-               'unconditional end-to-end theorem; fuel is NOT analysed',
+               'parentless ScopeBlock root, TM2, no free slot and no object carrying the new handle never panics and on success leaves an empty scope '
+               'stack and LI (root facts, TM2 for all Methods incl. the new ones, PEND, the structure AND the names of the Scope directives, no free slot) '
+               '- frame version of the first pass (ParserTotalFirst2.v), judgements bn / nfk (ParserTotalBenign.v), invariant step (ParserTotalPass1.v).  '
+               'C12_parse_total_namestring_good: a four-byte []byte returned by parseNameString starts with a name character, \\ or ^ '
+               '(ParserTotalNameLex.v); the judgement gpk (ParserTotalGoodPath.v, a small pre/post logic over the tree) carries "every name-path '
+               'object holds a good path" through the first pass.  '
+               'C12_parse_total_never_panics / C12_parse_total_parseAML_never_panics: END TO END and UNCONDITIONAL - parseAML_body (all six passes, '
+               'ANY fuel) resp. parseAML from init_state of any table over any pool NEVER panics and re-establishes R / valid indexes / slices-inside; '
+               'the hypotheses speak only about the pool before the call and about sizes: R, valid indexes, live parentless ScopeBlock root, TM2, '
+               'NO FREE SLOT (newObject keeps the name of a reused free slot and mergeScopeDirectives reads it), []byte typing, good paths in the '
+               'name-path objects already in the pool, slices inside the earlier tables, fresh handle, image of at most 2^28 bytes, and an explicit '
+               'quadratic memory bound.  Fuel exhaustion is NOT excluded (fuel is not analysed)',
                'the unproved parts of C12_full_parse_total (no Panic / OutOfFuel and R for the later passes, outcome class of load) are covered '
                'by the correspondence of the extracted model (explicit Panic / OutOfFuel outcomes, all passes modelled) with the real parser '
                'and by the harness monitors (outcome class, watchdog, independent link checker, PrettyPrint)',
